@@ -207,7 +207,7 @@ class LinearFilter(LinearFilterProperties):
       elif coeff == -1:
         data_sum.append("-d{idx}".format(idx=delay))
       elif coeff != 0:
-        data_sum.append("{value} * d{idx}".format(idx=delay, value=coeff))
+        data_sum.append("({value}) * d{idx}".format(idx=delay, value=coeff))
 
     den_iterables = []
     for delay, coeff in iteritems(self.dendict):
@@ -221,7 +221,7 @@ class LinearFilter(LinearFilterProperties):
       elif coeff == 1:
         data_sum.append("-m{idx}".format(idx=delay))
       elif coeff != 0:
-        data_sum.append("-{value} * m{idx}".format(idx=delay, value=coeff))
+        data_sum.append("-({value}) * m{idx}".format(idx=delay, value=coeff))
 
     # Creates the generator function for this call
     if len(data_sum) == 0:
@@ -234,7 +234,7 @@ class LinearFilter(LinearFilterProperties):
       if gain == -1:
         expr = "-({expr})".format(expr=expr)
       elif gain != 1:
-        expr = "({expr}) / {gain}".format(expr=expr, gain=gain)
+        expr = "({expr}) / ({gain})".format(expr=expr, gain=gain)
 
       arg_names = ["seq", "memory", "zero"]
       arg_names.extend("b{idx}".format(idx=idx) for idx in num_iterables)
